@@ -236,6 +236,18 @@ static void enckey_region(region_t *r, const blob_t *m, const uint8_t *ri, size_
 		if (sl == seriallens[opener] && !memcmp(ser, serials[opener], sl)) { set_region(r, m, ek, ekl); set_region(&idr[8], m, iss, il); set_region(&idr[9], m, ser, sl); return; }
 	}
 }
+/* does the CBC ciphertext at [ct_off, +ct_len) with the IV at iv_off decrypt (under the content key) to a strictly valid PKCS #7 padding? */
+static int strict_padding_ok(const blob_t *m, long iv_off, long ct_off, size_t ct_len, const uint8_t *key) {
+	SM4_KEY dk; uint8_t iv[16], *pt; int pad, i, ok = 1;
+	if (iv_off < 0 || ct_off < 0 || ct_len < 16 || ct_len % 16) return 0;
+	pt = malloc(ct_len); memcpy(iv, m->p + iv_off, 16);
+	sm4_set_decrypt_key(&dk, key);
+	sm4_cbc_decrypt_blocks(&dk, iv, m->p + ct_off, ct_len / 16, pt);
+	pad = pt[ct_len - 1];
+	if (pad < 1 || pad > 16) ok = 0;
+	for (i = 0; ok && i < pad; i++) if (pt[ct_len - 1 - (size_t)i] != pad) ok = 0;
+	free(pt); return ok;
+}
 static void do_tamper(const char *kindspec, size_t step, size_t off, const buf_t *content) {
 	/* kindspec = kind[:signers[:rcpts[:opener]]] (for sign: kind:signers; for env: kind:rcpts:opener); with parameters only the
 	   regions the property names (and the identifiers) are swept - every SignerInfo, the opener's RecipientInfo, IV */
@@ -254,7 +266,7 @@ static void do_tamper(const char *kindspec, size_t step, size_t off, const buf_t
 	region_t reg[9] = { { "content", -1, 0, 0 }, { "signature", -1, 0, 0 }, { "enckey", -1, 0, 0 }, { "iv", -1, 0, 0 }, { "ciphertext", -1, 0, 0 }, { "unlisted", -1, 0, 0 },
 		{ "signature", -1, 0, 0 }, { "signature", -1, 0, 0 }, { "signature", -1, 0, 0 } };
 	region_t sigs[4] = { { "signature", -1, 0, 0 }, { "signature", -1, 0, 0 }, { "signature", -1, 0, 0 }, { "signature", -1, 0, 0 } };
-	long tried = 0, crashed = 0, fc_i = -1, fl_i = -1; int fc_b = -1, fl_b = -1; const char *fl_r = NULL; long signerid = 0, rcptid = 0; int idk;
+	long tried = 0, crashed = 0, fc_i = -1, fl_i = -1; int fc_b = -1, fl_b = -1; const char *fl_r = NULL; long signerid = 0, rcptid = 0, badpad = 0; int idk;
 	for (idk = 0; idk < 10; idk++) { idr[idk].off = -1; idr[idk].len = 0; }
 	uint8_t *ct = malloc(content->n + 32); size_t ct_len = 0; SM4_KEY sk;
 	if (!strcmp(kind, "sign")) m = make_signed(sg, nsg, OID_cms_data, content);
@@ -305,6 +317,8 @@ static void do_tamper(const char *kindspec, size_t step, size_t off, const buf_t
 				else if (!strcmp(kind, "env")) r = open_env(&m, &keys_pub[opener], opener, content);
 				else if (!strcmp(kind, "enc")) r = open_enc(&m, SYMKEY, content);
 				else r = open_signenv(&m, &keys_pub[opener], opener, content);
+				/* an accepted change of IV / ciphertext: 3 = although the strict padding of what was sent is broken */
+				if (r && reg[3].off >= 0 && reg[4].off >= 0 && !strict_padding_ok(&m, reg[3].off, reg[4].off, reg[4].len, SYMKEY)) r = 3;
 				m.p[i] ^= (uint8_t)(1 << b);
 				rs[0] = (uint8_t)r; if (write(fds[1], rs, 1) != 1) _exit(3);
 			}
@@ -318,6 +332,7 @@ static void do_tamper(const char *kindspec, size_t step, size_t off, const buf_t
 		for (b = 0; b < (int)got; b++) {
 			tried++;
 			if (!rs[b]) continue;
+			if (rs[b] == 3) badpad++;
 			if (ri >= 100) { if (ri < 108) signerid++; else rcptid++; if (fl_i < 0) { fl_i = (long)i; fl_b = b; fl_r = ri < 108 ? "signerid" : "rcptid"; } continue; }
 			reg[ri].accepted++;
 			if (ri < 3 && fl_i < 0) { fl_i = (long)i; fl_b = b; fl_r = reg[ri].name; }
@@ -326,7 +341,7 @@ static void do_tamper(const char *kindspec, size_t step, size_t off, const buf_t
 	}
 	printf("tried=%ld", tried);
 	for (k = 0; k < 6; k++) printf(" %s=%ld", reg[k].name, reg[k].accepted);
-	printf(" signerid=%ld rcptid=%ld", signerid, rcptid);
+	printf(" signerid=%ld rcptid=%ld brokenpadding=%ld", signerid, rcptid, badpad);
 	printf(" faults=%ld", crashed);
 	if (fl_i >= 0) printf(" first=%s:byte%ld/bit%d", fl_r, fl_i, fl_b);
 	if (fc_i >= 0) printf(" first_fault=byte%ld/bit%d", fc_i, fc_b);
